@@ -196,6 +196,13 @@ def rule_order(ctx: Ctx) -> None:
     ctx.check(clock and ms and p is None, "C16.2", "current timestamp (ms) is stored before the signature is computed", mk, ts[0].stmt,
               "qs['timestamp'] = int(round(time.time() * 1000)) dominates signing",
               "timestamp is not read from the clock in ms before signing (stale or unsigned timestamp)")
+    # timestamps are current: nothing suspends between reading the clock and handing the request to the transport
+    call_n0 = g.nodes_for(call)[0]
+    mid = [n for n in g.reach([tsn], stop=lambda n: n is call_n0) if C.contains_await(n)]
+    ctx.check(not mid, "C16.2", "no suspension point between stamping/signing the request and sending it", mk,
+              mid[0].ast if mid else ts[0].stmt, "no await between the timestamp and the send",
+              f"'{mid[0].text()[:60] if mid else ''}' suspends after the timestamp was read and signed: a throttled request is sent with a "
+              "stale timestamp (rejected outside recvWindow)")
     # private copy before the first mutation (the default argument is a shared dict)
     copies = [s for s in A.stores(mk) if isinstance(s.target, ast.Name) and s.target.id == q_var and isinstance(s.node, ast.Assign)
               and isinstance(s.node.value, ast.Call) and (A.call_name(s.node.value) or "") in ("copy.copy", "dict", "copy.deepcopy")]
